@@ -26,7 +26,8 @@ N == Len(md)
 
 \* abs[k][Y0 - y + 1] = the instant of message k when it is read with year y.  In the model-checking configuration
 \* it is y * YL + md[k]; in trace validation (TraceYearWalk) it is the table of real calendar instants of the
-\* rendered file, so that every statement below is evaluated on real dates.
+\* rendered file, so that every statement below is evaluated on real dates.  (A 29 February read with a year that is
+\* not a leap year is entered in the table under the latest leap year not after it -- the rule of fix 8494e782.)
 NYears == MaxN + 2
 Abs(k, y) == abs[k][Y0 - y + 1]
 AbsModel(m) == [k \in 1..Len(m) |-> [j \in 1..NYears |-> (Y0 - j + 1) * YL + m[k]]]
